@@ -303,7 +303,13 @@ def project(prop, b, ev, ctx):
             return (None, (ok, tuple(b.qry) if b.qry else None, b.storage_changed))
     elif prop == "C17":
         if is_exec:
-            return (ok, tuple(sorted((a, v) for a, v in b.attrs if a in NAMED_ATTRS)))
+            # the price is reported "as a number": "2", "2.00" and "+2" are the same report, "2.00...04" is not
+            def norm(a, v):
+                if a == "price":
+                    x = parse_dec(v)
+                    return "number:%s" % x if x is not None else v
+                return v
+            return (ok, tuple(sorted((a, norm(a, v)) for a, v in b.attrs if a in NAMED_ATTRS)))
     return None
 
 
